@@ -285,14 +285,17 @@ def distribution(results):
 
 LEVEL_TEXT = ('Machine-checked Coq theorems over an executable model of Qremote\'s connection set-up (connect_mx over all MX of the case, both '
               'greeting() calls with the EHLO extension parser, tls_init with its reply loop, the pending-data check, handshake and verification '
-              'oracles, quitmsg/quitmsg_if_net/net_conn_shutdown, the byte-level net_read over the buffer shared by clear text and TLS): for every '
-              'case (all server scripts, segmentations, oracle answers, 0..n MX) the model never runs out of fuel and its event list satisfies '
-              'spec_ok_C18 outside the class tlsa_wrong_host (known finding, refutation proved): the handshake starts with an empty line buffer, '
-              'after it every line used was cut at exact positions from what the TLS session delivered and every extension bit relied on was offered '
-              'inside TLS, nothing is written in clear after a successful handshake and only QUIT after a failed one, the message is started in '
-              'clear only without route certificate / pinned certificate / usable TLSA and inside TLS only with X509_V_OK when one of the latter '
-              'exists. The theorems are about the C with four proposed fixes applied (switches regenerated from the C on every run; with any fix '
-              'missing the proof breaks at the corresponding obligation). The model is tied to the C by a differential run under ASan.')
+              'oracles, quitmsg/quitmsg_if_net/net_conn_shutdown, the byte-level net_read over the buffer shared by clear text and TLS). For every '
+              'case (all server scripts, segmentations, oracle answers, any number of MX): the model run always ends in exit() (no fuel exhaustion); '
+              'a handshake starts with an empty line buffer, at most once per connection; after a successful one everything is read and written '
+              'through TLS, each line used is cut at its exact position from what the TLS session delivered, and every extension bit in smtpext when '
+              'the transmission starts was offered by a line received inside TLS; after a failed handshake only QUIT is written and no transmission '
+              'starts; a route with its own client certificate never transmits in clear and always loads that certificate; a host with a '
+              'control/tlshosts certificate gets the message only inside TLS after X509_V_OK. Outside the decidable class tlsa_wrong_host (known '
+              'finding F-C18-3, refutation proved) the same holds for hosts with usable TLSA records of their own, i.e. the whole property as '
+              'checked by spec_ok_C18. The theorems are about the C with four proposed fixes applied; which code exists is regenerated from the C '
+              'on every run (with a fix missing the lemma fix_... fails and the corpus cases violate the specification on the C). The model is tied '
+              'to the C by a differential run under ASan with OpenSSL replaced by oracles at the same boundary the model draws.')
 LEVEL_NOTE = ('Partial for OpenSSL: handshake, certificate verification, record layer are oracles (see assumptions); lib/ssl_timeoutio.c is not '
               'modelled. Trusted: Coq kernel, translator regexes, extraction, harness, generator quality of the correspondence run. Known finding '
               'F-C18-3 (TLSA records of the first MX applied to every MX) is excluded by hypothesis and reported as KNOWN-FINDING.')
